@@ -23,6 +23,7 @@ type c01Case struct {
 	Pos2   int    `json:"pos2,omitempty"`
 	Pos    int    `json:"pos,omitempty"`
 	BadLen int    `json:"bad_len,omitempty"` // mismatch: -1 = nil coordinate, else length
+	Var    int    `json:"var,omitempty"`     // selfalias: 0 reversed, 1 shifted right behind a fresh coordinate, 2 shifted left
 }
 
 func init() {
@@ -92,7 +93,9 @@ func c01Run(c *engine.Ctx) {
 		for _, mode := range []string{"setcoords", "flat", "push"} {
 			c01Exec(c, c01Case{G: large[i], Mode: mode})
 		}
-		c01Exec(c, c01Case{G: large[i], Mode: "selfalias"})
+		for v := 0; v < 3; v++ {
+			c01Exec(c, c01Case{G: large[i], Mode: "selfalias", Var: v})
+		}
 		nc := numCoords(large[i])
 		st := large[i].Layout.Stride()
 		// pairs of cancelling wrong lengths: adjacent, far apart, around position 8
@@ -151,7 +154,9 @@ func c01Run(c *engine.Ctx) {
 				}
 			}
 		}
-		c01Exec(c, c01Case{G: g, Mode: "selfalias"})
+		for v := 0; v < 3; v++ {
+			c01Exec(c, c01Case{G: g, Mode: "selfalias", Var: v})
+		}
 		// every single-coordinate length mismatch
 		if g.Layout != geom.NoLayout {
 			nc := numCoords(g)
@@ -600,43 +605,131 @@ func c01Exec(c *engine.Ctx, cs c01Case) {
 	c.Sample(cs.Mode, 2, cs)
 }
 
-// c01SelfAlias: SetCoords with an argument that aliases the receiver's own storage (views
-// returned by Coord(i)), in reversed order: what is read back must be what was passed in.
+// c01SelfAlias: a second SetCoords on the same object whose argument is built from views of the
+// receiver's own storage (the slices returned by Coord(i)) in another order: reversed, shifted
+// right behind one fresh coordinate, shifted left in front of one. What is read back must be what
+// was passed in - an implementation that refills its storage in place reads coordinates it has
+// already overwritten. Every type with SetCoords and at least two coordinates.
 func c01SelfAlias(c *engine.Ctx, cs c01Case, fail func(what, desc string)) {
 	g := cs.G
-	if g.Kind != ref.LineString && g.Kind != ref.LinearRing || len(g.C1) < 2 || g.Layout == geom.NoLayout {
+	n := numCoords(g)
+	if g.Kind == ref.Point || g.Kind == ref.Collection || n < 2 || g.Layout == geom.NoLayout {
 		return
 	}
-	want := g.Clone()
-	for i, j := 0, len(want.C1)-1; i < j; i, j = i+1, j-1 {
-		want.C1[i], want.C1[j] = want.C1[j], want.C1[i]
+	// the coordinate values in flat order, and the permutation of this variant:
+	// src[i] = index of the old coordinate that slot i receives, -1 = a fresh coordinate
+	var old []ref.C
+	eachCoord(g, func(p *ref.C) { old = append(old, append(ref.C{}, (*p)...)) })
+	src := make([]int, n)
+	for i := range src {
+		switch cs.Var {
+		case 0:
+			src[i] = n - 1 - i
+		case 1:
+			src[i] = i - 1
+		default:
+			src[i] = i + 1
+			if i == n-1 {
+				src[i] = -1
+			}
+		}
 	}
+	fresh := make(ref.C, g.Layout.Stride())
+	for k := range fresh {
+		fresh[k] = ref.F(-7000 - float64(k))
+	}
+	want := g.Clone()
+	k := 0
+	eachCoord(want, func(p *ref.C) {
+		if src[k] < 0 {
+			*p = append(ref.C{}, fresh...)
+		} else {
+			*p = append(ref.C{}, old[src[k]]...)
+		}
+		k++
+	})
 	var t geom.T
 	p, _ := engine.Guard(func() {
 		t = g.MustBuild()
-		type coorder interface {
+		co := t.(interface {
 			Coord(i int) geom.Coord
 			NumCoords() int
+		})
+		// a MultiPoint indexes its coordinates by member (empty members included), every
+		// other type by position in the flat array
+		at := make([]int, 0, n)
+		if g.Kind == ref.MultiPoint {
+			for i := range g.C1 {
+				if g.C1[i] != nil {
+					at = append(at, i)
+				}
+			}
+		} else {
+			for i := 0; i < n; i++ {
+				at = append(at, i)
+			}
 		}
-		co := t.(coorder)
-		n := co.NumCoords()
 		views := make([]geom.Coord, n)
-		for i := 0; i < n; i++ {
-			views[i] = co.Coord(n - 1 - i)
+		for i := range views {
+			if src[i] < 0 {
+				views[i] = fresh.Floats()
+			} else {
+				views[i] = co.Coord(at[src[i]])
+			}
+		}
+		// the argument has the structure of the model, its coordinates are the views
+		k := 0
+		take := func(m int) []geom.Coord {
+			out := views[k : k+m : k+m]
+			k += m
+			return out
 		}
 		switch tt := t.(type) {
 		case *geom.LineString:
-			tt.MustSetCoords(views)
+			tt.MustSetCoords(take(n))
 		case *geom.LinearRing:
-			tt.MustSetCoords(views)
+			tt.MustSetCoords(take(n))
+		case *geom.MultiPoint:
+			arg := make([]geom.Coord, len(g.C1))
+			for i := range g.C1 {
+				if g.C1[i] != nil {
+					arg[i] = take(1)[0]
+				}
+			}
+			tt.MustSetCoords(arg)
+		case *geom.Polygon:
+			arg := make([][]geom.Coord, len(g.C2))
+			for i := range g.C2 {
+				arg[i] = take(len(g.C2[i]))
+			}
+			tt.MustSetCoords(arg)
+		case *geom.MultiLineString:
+			arg := make([][]geom.Coord, len(g.C2))
+			for i := range g.C2 {
+				arg[i] = take(len(g.C2[i]))
+			}
+			tt.MustSetCoords(arg)
+		case *geom.MultiPolygon:
+			arg := make([][][]geom.Coord, len(g.C3))
+			for i := range g.C3 {
+				arg[i] = make([][]geom.Coord, len(g.C3[i]))
+				for j := range g.C3[i] {
+					arg[i][j] = take(len(g.C3[i][j]))
+				}
+			}
+			tt.MustSetCoords(arg)
 		}
 	})
 	if p != nil {
 		fail("panic", fmt.Sprintf("panic %v", p))
 		return
 	}
+	if err := ref.WellFormed(t); err != nil {
+		fail("ill-formed", "after SetCoords with views of the receiver's own coordinates: "+err.Error())
+		return
+	}
 	if d := observeEq(t, want, ref.EqualOpt{}); d != "" {
-		fail("lossy", "SetCoords with views of the receiver's own coordinates (reversed): "+d)
+		fail("lossy", fmt.Sprintf("SetCoords with views of the receiver's own coordinates (variant %d: 0 reversed, 1 shifted right behind a fresh coordinate, 2 shifted left): %s", cs.Var, d))
 		return
 	}
 	c.Count("selfalias_ok", 1)
